@@ -447,6 +447,22 @@ def r17_6(prog: Program, rep):
                 and isinstance(loop.iter.slice, ast.Slice) and isinstance(loop.iter.slice.lower, ast.Name):
             skip = loop.iter.slice.lower.id
     if skip is None:
+        # second idiom: one loop over enumerate(components) that `continue`s while the index is below the skip count
+        for loop in [x for x in ast.walk(f.node) if isinstance(x, ast.For)]:
+            if not (any(isinstance(c, ast.Call) and dotted(c.func) == "os.lstat" for c in ast.walk(loop)) and isinstance(loop.iter, ast.Call)
+                    and callee_name(loop.iter) == "enumerate" and isinstance(loop.target, ast.Tuple) and isinstance(loop.target.elts[0], ast.Name)):
+                continue
+            idx = loop.target.elts[0].id
+            for st in loop.body:
+                if isinstance(st, ast.If) and any(isinstance(b_, ast.Continue) for b_ in st.body) and isinstance(st.test, ast.Compare) and len(st.test.ops) == 1:
+                    l_, r_, op_ = st.test.left, st.test.comparators[0], st.test.ops[0]
+                    # canonical form: `idx < skip`
+                    if isinstance(op_, ast.Lt) and isinstance(l_, ast.Name) and l_.id == idx and isinstance(r_, ast.Name):
+                        # the guard must come before the lstat in the loop body
+                        before = loop.body[:loop.body.index(st)]
+                        if not any(isinstance(c, ast.Call) and dotted(c.func) == "os.lstat" for b_ in before for c in ast.walk(b_)):
+                            skip = r_.id
+    if skip is None:
         raise AnalysisError("verify_leading_dirs: the loop that lstat()s components[<skip>:] was not found")
     assigns = [s_ for s_ in ast.walk(f.node) if isinstance(s_, (ast.Assign, ast.AugAssign))
                and isinstance((s_.targets[0] if isinstance(s_, ast.Assign) else s_.target), ast.Name)
@@ -465,8 +481,13 @@ def r17_6(prog: Program, rep):
                         for side in (c.left, c.comparators[0])) for c in ast.walk(par.test)):
                 verdict = True if verdict is None else verdict
                 continue
-            # inside `for a, b in zip(...): if a != b: break ; skip += 1`
-            if isinstance(par, ast.For) and "zip(" in norm(par.iter) and any(isinstance(x, ast.Break) for x in ast.walk(par)):
+            # inside `for a, b in zip(...): if a != b: break ; skip += 1`   (also: `if a == b: skip += 1 else: break`)
+            zp = par
+            while zp is not None and not isinstance(zp, (ast.For, ast.While, ast.FunctionDef)):
+                zp = m.parents.get(zp)
+            if isinstance(zp, ast.For) and "zip(" in norm(zp.iter) and any(isinstance(x, ast.Break) for x in ast.walk(zp)):
+                # every iteration either counts or leaves the loop: the increment and the break are the two arms of one test
+                # (or the break precedes the increment)
                 verdict = True if verdict is None else verdict
                 continue
         if isinstance(a, ast.Assign):
